@@ -493,6 +493,35 @@ def sub_meters(ctx, shard, n):
     ctx.given("meter", check_meter, strat, 500 if ctx.quick else 20000)
 
 
+def check_tiny_unit(ctx, case):
+    """'+' places one beat of the bar's own meter: in a meter n/d with a very small beat (d = 256 .. 4096) the bar takes exactly n
+    of them - also while less than a thousandth of a whole note is left - and refuses the next one"""
+    n, d, form = case
+    bar = ctx.ok("constructor", Bar, "C", (n, d))
+    if failed(bar):
+        return
+    for k in range(n):
+        r = ctx.ok("plus", bar.__add__, mg.build_content(form, [["C", 4]])) if k % 2 == 0 else ctx.ok("place_notes", bar.place_notes, "E-4", d)
+        if failed(r):
+            return
+        if not ctx.check(r is True, "accept/refused-fitting", lambda: "meter %d/%d: beat %d of %d refused (%d/%d used)" % (n, d, k + 1, n, k, d)):
+            return
+        ctx.check(len(bar) == k + 1 and abs(bar.current_beat - (k + 1) / float(d)) <= 1e-12, "current-beat",
+                  lambda: "meter %d/%d after %d beats: %d entries, current beat %r" % (n, d, k + 1, len(bar), bar.current_beat))
+    r = ctx.ok("plus", bar.__add__, "G-4")
+    ctx.check(failed(r) or r is False, "accept/accepted-overflow", lambda: "meter %d/%d: beat %d accepted" % (n, d, n + 1))
+    ctx.check(len(bar) == n, "refused-changed-bar", lambda: "meter %d/%d: %d entries after the refused beat" % (n, d, len(bar)))
+    ctx.note_case(d >= 1024 and n >= 2, ["tiny-unit:%d" % d])
+
+
+CHECKS["tiny_unit"] = check_tiny_unit
+
+
+def sub_tiny_units(ctx, shard, n):
+    cases = [[k, d, form] for d in (256, 512, 1024, 2048, 4096) for k in (1, 2, 3, 5, 7) for form in ("str", "note")]
+    ctx.enumerate("tiny_unit", check_tiny_unit, cases)
+
+
 def sub_meter_changes(ctx, shard, n):
     """one Bar object given a second meter (before anything was placed, or after it was used and emptied): '+' and the
     accounting must follow the new meter alone"""
@@ -518,6 +547,7 @@ SUBS = [
     Sub("near_boundary", sub_near_boundary),
     Sub("beat_closers", sub_beat_closers, quick=3, thorough=8),
     Sub("churn", sub_churn, quick=3, thorough=8),
+    Sub("tiny_units", sub_tiny_units),
     Sub("meters", sub_meters),
     Sub("meter_changes", sub_meter_changes, quick=3, thorough=3),
 ]
